@@ -25,6 +25,8 @@ pub struct MigCfg {
     pub clients: usize,
     pub ops_per_client: usize,
     pub policy: u8, // 0 random, 1 prefer migration traffic, 2 prefer client traffic, 3 LIFO
+    /// proxies run with active redirection (commands for slots of another proxy are forwarded, not answered with MOVED)
+    pub active: bool,
 }
 
 fn parse_moved(r: &RespVec) -> Option<String> {
@@ -158,12 +160,12 @@ async fn client_op(net: &Net, proxies: &[String], start: usize, cmd: Vec<Vec<u8>
 
 pub async fn run_one(cfg: &MigCfg) -> Vec<Value> {
     let mut rng = StdRng::seed_from_u64(cfg.seed);
-    let w = match ClusterWorld::new(0, false, false, false, cfg.conn_num, false) {
+    let w = match ClusterWorld::new(0, false, false, cfg.active, cfg.conn_num, false) {
         Ok(w) => w,
         Err(e) => return vec![json!({"kind": "harness_error", "e": e})],
     };
     let net = w.net.clone();
-    let mut head = vec![json!({"kind": "reset", "seed": cfg.seed, "conn_num": cfg.conn_num, "scale_in": cfg.scale_in, "policy": cfg.policy,
+    let mut head = vec![json!({"kind": "reset", "seed": cfg.seed, "conn_num": cfg.conn_num, "scale_in": cfg.scale_in, "policy": cfg.policy, "active_redirection": cfg.active,
         "ttl_keys": cfg.ttl_keys, "directed_pttl": cfg.directed_pttl, "directed_stale": cfg.directed_stale})];
     let mut w = w;
     macro_rules! op {
@@ -496,6 +498,7 @@ pub fn run_many<W: Write>(out: &mut W, count: u64, seed: u64, directed: bool, st
             clients: if directed { 1 } else { 2 + (i % 2) as usize },
             ops_per_client: if directed { 3 } else { 5 },
             policy: (i % 4) as u8,
+            active: std::env::var("UVERIF_ACTIVE").is_ok() || (i % 7 == 3 && !stale && !directed),
         };
         let log = rt.block_on(run_one(&cfg));
         for (n, mut e) in log.into_iter().enumerate() {
